@@ -207,7 +207,7 @@ def r2_drivers(ctx):
 
 
 def fm_post(calls):
-    """post-condition of find_match = naive_re_search (R1): Found(i,j) has start <= i <= j <= len"""
+    """post-condition of find_match = naive_re_search (R1): Found(i,j) has start <= i <= j <= len, and i < j unless empty matches were allowed"""
     hy = []
     for name, args in calls:
         if name != FM:
@@ -218,6 +218,10 @@ def fm_post(calls):
         f1 = T.typed(('vfld', c, 'Found', '1'), 'usize')
         ln = T.typed(('len', args[1]), 'usize')
         hy.append(T.mk_implies(eq(d, I(0)), all_(le(args[2], f0), le(f0, f1), le(f1, ln))))
+        # the empty match is only reported when it was asked for (R1: found:bounds has x < y outside the early case,
+        # and the early case needs allow_empty)
+        if len(args) > 3 and isinstance(args[3], tuple):
+            hy.append(T.mk_implies(AND(eq(d, I(0)), NOT(args[3])), lt(f0, f1)))
     return hy
 
 
